@@ -1,8 +1,10 @@
-/- Line-protocol driver for the Tree component (stub; see tools/AGENT_GUIDE.md). -/
+/- Line-protocol driver for the Tree component (TREE verb, C18); handlers are in Driver/TreeOps.lean. -/
+import Driver.TreeOps
+
 partial def loop (h : IO.FS.Stream) (out : IO.FS.Stream) : IO Unit := do
   let line ← h.getLine
   if line.isEmpty then return ()
-  out.putStrLn "BADVERB"
+  out.putStrLn (Driver.TreeOps.dispatch line)
   loop h out
 
 def main : IO Unit := do
